@@ -42,18 +42,29 @@ def lookupThread (l : List (Inst × Char)) (i : Inst) : Option Char :=
 
 def showU64 (x : UInt64) : String := toString x.toNat
 
+def effKeys : List ResId := (List.range 6).flatMap fun ty => (List.range 4).map fun dy => ⟨ty, dy⟩
+
+/-- the same state with its tables evaluated on the finite key sets the harness uses (keeps the
+compiled closures from nesting; identity on those keys) -/
+def materialize (tags : List Nat) (st : EffState) : EffState :=
+  let wl := effKeys.map fun k => (k, st.world k)
+  let ll := tags.map fun t => (t, st.locals t)
+  { world := fun k => match wl.find? (fun p => p.1 == k) with | some p => p.2 | none => initVal k,
+    locals := fun t => match ll.find? (fun p => p.1 == t) with | some p => p.2 | none => (0, 0) }
+
 /-- the effect of `k` dispatches in `dispatch_seq` order, from the initial harness world -/
 def effects (f : Frame) (decls : List (SysTag × Decl)) (k : Nat) : EffState :=
   let t := nDispatchTask false f.b.stagesBuilder.stages f.b.threadLocal f.bodies []
   let insts := t.seqTrace.filterMap fun e => match e with | .F i => some i | .D _ => none
+  let tags := decls.map (·.1)
   let once (st : EffState) : EffState :=
     insts.foldl (fun st i =>
       match i.getLast? with
       | some tag => match findDecl decls tag with
-        | some d => runSys tag d st
+        | some d => materialize tags (runSys tag d st)
         | none => st
       | none => st) st
-  (List.range k).foldl (fun st _ => once st) { world := initWorld 6 4, locals := [] }
+  (List.range k).foldl (fun st _ => once st) (materialize tags EffState.init)
 
 def step (st : St) (ws : List String) : St × String :=
   match ws with
@@ -180,8 +191,9 @@ def step (st : St) (ws : List String) : St × String :=
     match st.frames, k.toNat? with
     | f :: _, some k =>
       let e := effects f st.decls k
-      let w := ",".intercalate (e.world.map fun p => s!"{p.1.ty}.{p.1.dyn}={showU64 p.2}")
-      let l := ",".intercalate (e.locals.map fun p => s!"{p.1}:{showU64 p.2.1}:{showU64 p.2.2}")
+      let w := ",".intercalate (effKeys.map fun r => s!"{r.ty}.{r.dyn}={showU64 (e.world r)}")
+      let tags := (st.decls.map (·.1)).reverse
+      let l := ",".intercalate (tags.map fun t => s!"{t}:{showU64 (e.locals t).1}:{showU64 (e.locals t).2}")
       (st, s!"world {w} locals {if l.isEmpty then "-" else l}")
     | _, _ => (st, "bad-op")
   | _ => (st, "bad-op")
